@@ -149,6 +149,8 @@ def literals(test, positive=True):
     `and` split when positive, `or` split when negated.  The normal form in which conditions are compared."""
     if isinstance(test, ast.UnaryOp) and isinstance(test.op, ast.Not):
         return literals(test.operand, not positive)
+    if isinstance(test, ast.Call) and isinstance(test.func, ast.Name) and test.func.id == "bool" and len(test.args) == 1 and not test.keywords:
+        return literals(test.args[0], positive)          # as a condition, bool(x) is x
     if isinstance(test, ast.BoolOp):
         if isinstance(test.op, ast.And) == positive:
             out = []
@@ -235,6 +237,50 @@ def conds(node, root=None):
         if isinstance(cur, (ast.FunctionDef, ast.AsyncFunctionDef, ast.Lambda)) and root is None:
             break
         child, cur = cur, getattr(cur, "_parent", None)
+    return resolve_units(out)
+
+
+def _neg_text(l):
+    """text of the negation of a literal, in the spelling literals() would give"""
+    try:
+        return literals(ast.parse(l, mode="eval").body, False)
+    except SyntaxError:
+        return None
+
+
+def resolve_units(cs):
+    """Unit resolution on a conjunction of literals: with `L` known, the disjunction `not L or M` is `M` (a guard clause
+    `if A and not B: raise` followed by `if A:` leaves `B` on the second branch, exactly like the nested form).  A disjunct is dropped
+    only when its negation is literally among the other conditions; order of the remaining conditions is kept."""
+    out = list(cs)
+    changed = True
+    while changed:
+        changed = False
+        have = set(out)
+        for i, c in enumerate(out):
+            if " or " not in c or c.startswith("not ("):
+                continue
+            try:
+                t = ast.parse(c, mode="eval").body
+            except SyntaxError:
+                continue
+            if not (isinstance(t, ast.BoolOp) and isinstance(t.op, ast.Or)):
+                continue
+            keep = []
+            for v in t.values:
+                nv = literals(v, False)
+                if len(nv) >= 1 and all(x in have for x in nv):
+                    continue          # this disjunct is refuted by the other conditions
+                keep.append(v)
+            if len(keep) < len(t.values) and keep:
+                repl = []
+                if len(keep) == 1:
+                    repl = literals(keep[0], True)
+                else:
+                    repl = literals(ast.BoolOp(op=ast.Or(), values=keep), True)
+                out[i:i + 1] = [x for x in repl if x not in have]
+                changed = True
+                break
     return out
 
 
@@ -381,7 +427,13 @@ class Facts:
                         cache[c] = " or ".join(sorted(expand(ast.parse(x, mode="eval").body, fn) for x in c.split(" or "))) if " or " in c else expand(ast.parse(c, mode="eval").body, fn)
                     except SyntaxError:
                         cache[c] = c
-                out.append(cache[c])
+                    # the expansion of a flag may itself be a compound condition (a conjunction, bool(x), a negated comparison): state it as literals
+                    try:
+                        relit = literals(ast.parse(cache[c], mode="eval").body, True)
+                    except SyntaxError:
+                        relit = [cache[c]]
+                    cache[c] = relit
+                out.extend(cache[c])
                 raw.append(c)
             return tuple(out), tuple(raw)
 
